@@ -2,7 +2,7 @@
 # usage: confirm_seed.sh <seed dir>...   -- independent confirmation of a seeded change in a scratch worktree
 WT=/tmp/wt_confirm
 [ -d $WT ] || git -C /repo worktree add -q --detach $WT HEAD
-run_tests() { (cd $WT && PYTHONPATH=$WT/src /venv/bin/python -m pytest -q -p no:cacheprovider tests/unit_tests tests/integration_tests -q -rfE 2>&1 | grep -E "^(FAILED|ERROR)" | sed 's/ - .*//' | sort); }
+run_tests() { (cd $WT && PYTHONPATH=$WT/src /venv/bin/python -m pytest -q -p no:cacheprovider --continue-on-collection-errors tests/unit_tests tests/integration_tests -q -rfE 2>&1 | grep -E "^(FAILED|ERROR)" | sed 's/ - .*//' | sort); }
 if [ ! -f /tmp/confirm_base.txt ]; then git -C $WT checkout -q -- .; run_tests > /tmp/confirm_base.txt; fi
 for d in "$@"; do
   git -C $WT checkout -q -- .
